@@ -1,4 +1,5 @@
 import ZmqVerif.Lemmas.Rfc
+import ZmqVerif.Lemmas.WorldRotation
 import ZmqVerif.Lemmas.Decode
 import ZmqVerif.Gen.Tables
 import ZmqVerif.Lemmas.Command
@@ -148,5 +149,22 @@ theorem C01_ready_lib (t : SockType) (ident : Option Bytes) (idFirst : Bool)
     (hu : validUtf8 kSocketType = true ∧ validUtf8 kIdentity = true) :
     parseCommand (commandBody kReady (readyProps t ident idFirst)) = .ok (readyProps t ident idFirst) :=
   lib_readyBody _ (readyProps_ok t ident idFirst hid) (readyProps_utf8 t ident idFirst hu)
+
+
+/-! ### socket level: the bytes a send puts on a connection -/
+
+open Zmq.W in
+/-- **What a socket WRITES for a message conforms.**  A round-robin send (PUSH, DEALER) that completes has extended the
+outgoing byte stream of exactly one connection by `enc`, and `enc` read by the strict RFC-23 frame grammar is exactly the
+frames of the message, MORE set on all but the last — no extra bytes, nothing on any other connection.  (The same `enc`
+= `encodeMsg …` appears in `C07_world_req_send`, `C08_world_rep_send`, `C09_world_router_send`, `C12_world_publish_subscriber`
+for the other socket types, behind their envelope rules.) -/
+theorem C01_world_sent_bytes_conform (fuel : Nat) (w : World) (sid : Nat) (m : Msg) (s : Socket) (hs : getSock w sid = some s)
+    (h64 : ∀ f ∈ m, f.length < 2 ^ 64)
+    (w' : World) (f' : FutSt) (h : sendRRPoll fuel w sid m none = (w', f', .ready .okUnit)) :
+    ∃ k wr enc, ilookup s.peers k = some wr ∧ (wOf w'.pipes wr.pipe).wire = outOf w.pipes wr ++ enc ∧
+      parseFrames enc = some (tagMore m) ∧ ∀ j, j ≠ wr.pipe → wOf w'.pipes j = wOf w.pipes j := by
+  obtain ⟨k, _, wr, _, h4, h5, h6, _⟩ := sendRRStart_done_who fuel w sid m s hs w' f' h
+  exact ⟨k, wr, encodeMsg m, h4, h5, C01_rfc_roundtrip m h64, h6⟩
 
 end Zmq.C01
